@@ -68,7 +68,10 @@ def _two_sided(prog, rep, qual):
                         if (l_, r_) == ({'b'}, {pts}) and op_ in (ast.Lt,
                                                                   ast.LtE):
                             sides.add('high')
-            if sides:
+            on_points = any(pts in org.get(n.id, ())
+                            for tst in tests for n in ast.walk(tst)
+                            if isinstance(n, ast.Name))
+            if sides or on_points:
                 found = True
                 ok = sides == {'low', 'high'}
                 rep.add('P-two-sided', qual, paths.src(mod, node.test),
